@@ -75,10 +75,13 @@ class World(object):
 
     _n = 0
 
-    def __init__(self):
+    def __init__(self, attach=None):
+        if attach:
+            self.root = os.path.realpath(attach)  # an existing world created by another (parent) process
+            return
         base = "/dev/shm" if os.path.isdir("/dev/shm") and os.access("/dev/shm", os.W_OK) else os.environ.get("TMPDIR", "/tmp")
         World._n += 1
-        self.root = os.path.realpath(os.path.join(base, "dtsim-%d-%d" % (os.getpid(), World._n)))
+        self.root = os.path.realpath(os.path.join(base, "dtsim-%d-%d" % (_orig.get("getpid", os.getpid)(), World._n)))
         if os.path.exists(self.root):
             shutil.rmtree(self.root)
         os.makedirs(self.root)
@@ -175,7 +178,8 @@ def _fs(p):
 class Sim(object):
     """State of one simulated process: event history, step counter, fault plan."""
 
-    def __init__(self, world, fault=None, bufsize=8192, record_steps=False):
+    def __init__(self, world, fault=None, bufsize=8192, record_steps=False, real_kill=False):
+        self.real_kill = real_kill  # fidelity tier: KILL is a real SIGKILL of this (child) process, buffering is CPython's own
         self.world = world
         self.root = world.root
         self.fault = fault  # dict or None
@@ -250,6 +254,10 @@ class Sim(object):
         self.fired = {"kind": kind, "event_kind": ekind, "path": rel, "n": len(self.events) - 1, "step": self.steps,
                       "write_in_flight": self.write_in_flight_at_fault}
         if kind == "KILL":
+            if self.real_kill:
+                import signal
+
+                os.kill(_orig["getpid"](), signal.SIGKILL)
             if ekind == "write":
                 self._write_prefix(ctx, f.get("cut", 0))
             self._freeze()
@@ -374,6 +382,8 @@ class SimFile(object):
     # writing
     def write(self, data):
         self._sim.event("write", self._rel, {"len": len(data)}, {"file": self, "data": data})
+        if self._sim.real_kill:
+            return self._real.write(data)  # the interpreter's own buffering decides what a real kill loses
         self._pending.append(data)
         self._pending_len += len(data)
         if self._pending_len >= self._sim.bufsize:
